@@ -244,3 +244,25 @@ theorem product_order_first (iv : Rat × Rat) (rest : List (Rat × Rat)) (k : Na
     simp [hl, List.getElem?_map, List.getElem?_eq_getElem (show k < (product rest).length by omega)]
 
 end Gwcs.Grid
+
+namespace Gwcs.Grid
+
+/-- **axis_type_spelling_irrelevant.** Two spellings of the requested type that differ only in case (and frames that report their
+types in any case) give the same footprint. -/
+theorem axis_type_spelling_irrelevant (f : List Rat → Except Err (List Rat)) (bb own : Option (List (Rat × Rat))) (center : Bool)
+    (t1 t2 : List String) (a1 a2 : String) (ht : t1.map String.toLower = t2.map String.toLower) (ha : a1.toLower = a2.toLower) :
+    footprintRaw f bb own center t1 a1 = footprintRaw f bb own center t2 a2 := by
+  have hn : ∀ s : String, normType s = (if s.toLower == "time" then "temporal" else s.toLower) := fun _ => rfl
+  have h1 : t1.map normType = t2.map normType := by
+    have : ∀ l : List String, l.map normType = (l.map String.toLower).map (fun l => if l == "time" then "temporal" else l) := by
+      intro l; simp [List.map_map, Function.comp_def, hn]
+    rw [this t1, this t2, ht]
+  have h2 : normType a1 = normType a2 := by rw [hn, hn, ha]
+  unfold footprintRaw
+  rw [h1, h2]
+
+/-- **temporal_alias.** 'TIME' (what a `TemporalFrame` reports), 'time' and 'Temporal' all name the documented type 'temporal'. -/
+theorem temporal_alias : normType "TIME" = "temporal" ∧ normType "time" = "temporal" ∧ normType "Temporal" = "temporal" ∧
+    normType "SPATIAL" = "spatial" := by decide +kernel
+
+end Gwcs.Grid
